@@ -11,11 +11,12 @@ FUNCTIONS = [
     "autobahn.websocket.protocol: WebSocketServerProtocol.processHandshake+succeedHandshake / WebSocketClientProtocol.processHandshake (hand-over of octets following the HTTP header)",
     "autobahn.websocket.xormasker: XorMaskerSimple / XorMaskerShifted1 / create_xor_masker",
     "autobahn.twisted.websocket: WebSocketAdapterProtocol.dataReceived / connectionMade",
+    "autobahn.asyncio.websocket: WebSocketAdapterProtocol.connection_made / data_received / _consume (receive queue), factories (aio/ units)",
 ]
 STUBS = ["transport -> recording object (both directions)", "reactor / txaio.call_later -> twisted Clock", "random.getrandbits -> fresh 32-bit variable per frame",
          "os.urandom (handshake nonce) -> fixed octets", "loggers -> empty bodies"]
 ASSUMPTIONS = [
-    "Twisted adapter only; the asyncio adapter's receive queue (needs a running event loop) is outside the symbolic claim",
+    "Twisted adapter for the bulk of the units; the asyncio adapter (receive queue processed from an event-loop callback) is driven by the aio/ units on a hand-stepped loop: 2 messages x 2-cut segmentations, queue piled up or drained between segments",
     "compression off (see C12); sendFrame's deliberately-invalid fuzzing parameters (mask=, payload_len=, rsv=) are not used",
     "payload content symbolic up to the stated octet bound, longer payloads are concrete fill around symbolic octets; lengths, API mix, fragment sizes, chop sizes, cut positions enumerated within the bounds (fragment size additionally as a free integer)",
     "oracle 1 = independent RFC 6455 frame grammar over the written octets; oracle 2 = peer application's onMessage trace",
@@ -24,7 +25,7 @@ BOUNDS = {
     "quick": "2 messages per run, all ordered pairs of 6 send APIs, payload 0..3 free octets; fragmentSize/autoFragmentSize a free integer 1..n+1; chop sizes 1..3; every single cut of the wire stream for short streams; boundary lengths {125,126,127,128,129} client->server and {65535,65536} server->client with 2 free octets + fill; hand-over after the HTTP header at every cut position of the last 6 header octets",
     "thorough": "3 messages per run over all API triples, payload 0..6 free octets, every 2-cut split for streams <= 24 octets, boundary lengths both directions, chop sizes 1..5",
 }
-EXPECT_COVERS = ["api:message", "api:message-frag", "api:autofrag", "api:frame-frag", "api:streaming", "api:prepared", "sync-queue", "chopped",
+EXPECT_COVERS = ["aio", "api:message", "api:message-frag", "api:autofrag", "api:frame-frag", "api:streaming", "api:prepared", "sync-queue", "chopped",
                  "handover:S", "handover:C", "len:126", "len:65536"]
 BUDGET = {"quick": dict(wall_s=300, max_paths=20000, diff_samples=3), "thorough": dict(wall_s=2400, max_paths=300000)}
 
@@ -138,6 +139,42 @@ def roundtrip(sx, sender_server, apis, n, syncs, chop, cutmode):
     return [len(frames), len(got)]
 
 
+def aio_roundtrip(sx, sender_server, apis, n, queued):
+    """the asyncio adapter: segments handed to data_received() are queued and processed from a loop callback - the same messages,
+    once, in order, whether the loop runs between segments or all segments pile up in the queue first"""
+    loop, trace, s, c, rnd = wslib.open_pair_aio(sx)
+    snd, rcv = (s, c) if sender_server else (c, s)
+    info = dict(apis=apis, n=n, sender="S" if sender_server else "C", queued=queued)
+    sx.check(s.p.state == s.p.STATE_OPEN and c.p.state == c.p.STATE_OPEN, "aio:handshake-completes", info=info)
+    s.t.take()
+    c.t.take()
+    del trace[:]
+    payloads, kinds = [], []
+    for i, api in enumerate(apis):
+        pl = sx.bytes("m%d" % i, n)
+        isbin = _send(sx, snd, api, pl, i, False, None)
+        payloads.append(pl)
+        kinds.append(True if isbin is None else isbin)
+    wslib.run_loop(loop)
+    wire = wslib.concat(snd.t.take())
+    frames, rest = wslib.parse_frames(sx, wire)
+    sx.check(len(rest) == 0, "wire:whole-frames-only", info=info)
+    wmsgs = _check_wire(sx, frames, sender_server, info)
+    sx.check(len(wmsgs) == len(payloads), "wire:one-message-per-send", info=info)
+    L = len(wire)
+    c1 = sx.choice("cut1", L + 1)
+    c2 = c1 + sx.choice("gap", 4)
+    wslib.deliver_aio(rcv, loop, wire, (c1, c2), run_between=not queued)
+    got = trace.of(rcv.who, "msg")
+    sx.check(len(got) == len(payloads), "rx:exactly-once", info=info)
+    for g, want in zip(got, payloads):
+        sx.check(g[2] == want, "rx:payload-identical-in-order", info=info)
+    sx.check(rcv.t.closed is None and rcv.p.state == rcv.p.STATE_OPEN, "rx:connection-stays-open", info=info)
+    sx.check(len(loop.verif_errors) == 0, "aio:no-exception-reaches-the-event-loop", info=dict(info, errors=loop.verif_errors[:2]))
+    sx.cover("aio")
+    return [len(frames), len(got)]
+
+
 def boundary(sx, sender_server, api, L):
     """payload lengths at the 7/16/64-bit length-encoding boundaries: 2 free octets + literal fill"""
     clock, trace, s, c, rnd = wslib.open_pair(sx)
@@ -239,6 +276,12 @@ def units(tier):
             for syncs in ([True, True, False], [True, False, False], [False, True, False]):
                 U.append(("q3/%s/%s/%s" % ("S" if sender_server else "C", "+".join(apis), "".join(str(int(x)) for x in syncs)), "roundtrip",
                           dict(sender_server=sender_server, apis=apis, n=2, syncs=syncs, chop=None, cutmode="whole")))
+    # asyncio adapter (receive queue + loop callback): own interpreter per unit
+    for sender_server in (True, False):
+        for apis in ((["message", "message"], ["message-frag", "message"]) if q else (["message", "message"], ["message-frag", "message"], ["streaming", "prepared"], ["message", "frame-frag"])):
+            for queued in (False, True):
+                U.append(("aio/%s/%s/%s" % ("S" if sender_server else "C", "+".join(apis), "queued" if queued else "stepped"), "aio_roundtrip",
+                          dict(sender_server=sender_server, apis=apis, n=2, queued=queued), dict(weight=6, framework="asyncio")))
     # length-encoding boundaries
     for L in ([125, 126, 127, 128, 129] if q else [124, 125, 126, 127, 128, 129, 130, 255, 256]):
         for api in (("message", "prepared", "streaming") if q else APIS):
